@@ -7,8 +7,9 @@
 (* Forward.tla.  Every recorded event carries one harness-side sequence    *)
 (* number; the events of one client query, in that order, form its trace:  *)
 (*                                                                         *)
-(*   reset  mode cap pre      the query arrives (configuration, the guard  *)
-(*                            tuples already exhausted)                    *)
+(*   reset  mode cap pre [prework]  the query arrives (configuration, the  *)
+(*                            guard tuples already exhausted, the budget   *)
+(*                            the primary resolution is rejected on)       *)
 (*   send   s p f ledger debits   a packet arrived at upstream s over p;   *)
 (*                            f = the fault s plays; the request tree's    *)
 (*                            ledger counter read at that moment           *)
@@ -23,7 +24,7 @@
 (* The invariants of Forward.tla are checked on every state of the         *)
 (* matching (TraceSpec: a trace the model cannot follow is drift).         *)
 (* MonitorSpec reads the same file without the model: every line is        *)
-(* consumed and only advances the OBSERVED counters (obs); the three Obs   *)
+(* consumed and only advances the OBSERVED counters (obs); the Obs         *)
 (* invariants are the property predicates on what the code did - one of    *)
 (* them failing is a violation, whatever the model says.                   *)
 (***************************************************************************)
@@ -38,17 +39,18 @@ Line == TraceLog[l]
 IsEv(e) == l <= Len(TraceLog) /\ Line.ev = e /\ l' = l + 1
 SeqSet(sq) == {sq[i] : i \in 1..Len(sq)}
 
-ObsInit == [nsent |-> 0, ledger |-> FALSE, debits |-> 0, replies |-> 0]
+ObsInit == [nsent |-> 0, ledger |-> FALSE, debits |-> 0, replies |-> 0, latched |-> FALSE, rc |-> "none"]
 
-TraceInit == Init /\ pre = {} /\ l = 1 /\ want = "none" /\ obs = ObsInit /\ TLCSet(1, 0)
+TraceInit == Init /\ pre = {} /\ prework = "none" /\ l = 1 /\ want = "none" /\ obs = ObsInit /\ TLCSet(1, 0)
 
 TReset ==
   /\ IsEv("reset")
   /\ mode' = Line.mode /\ cap' = Line.cap
   /\ pre' = {<<t[1], t[2]>> : t \in SeqSet(Line.pre)}
+  /\ prework' = IF "prework" \in DOMAIN Line THEN Line.prework ELSE "none"
   /\ pc' = "serve" /\ lvl' = "fwd" /\ idx' = 1 /\ cur' = 0 /\ proto' = "udp" /\ pend' = "none" /\ now' = 0
   /\ guard' = [t \in Tuples |-> IF t \in pre' THEN MaxAtt ELSE 0]
-  /\ debits' = 0 /\ passes' = 0 /\ latched' = FALSE /\ fresp' = 0 /\ frc' = "none" /\ lerr' = "none"
+  /\ debits' = 0 /\ passes' = 0 /\ latched' = FALSE /\ fresp' = 0 /\ frc' = "none" /\ fid' = "none" /\ lerr' = "none"
   /\ m' = NoMsg /\ reply' = NoMsg /\ replies' = 0 /\ replyAt' = 0
   /\ engaged' = FALSE /\ entry' = [rc |-> "none", latched |-> FALSE, expired |-> FALSE]
   /\ nsent' = 0 /\ wire' = [t \in Tuples |-> 0] /\ sent' = <<>> /\ script' = [s \in Srv |-> "none"]
@@ -73,7 +75,7 @@ TFwd ==
 TReply ==
   /\ IsEv("reply")
   /\ Deliver /\ SameMsg(Norm(reply)) /\ latched = Line.latched
-  /\ obs' = [obs EXCEPT !.replies = @ + 1]
+  /\ obs' = [obs EXCEPT !.replies = @ + 1, !.latched = Line.latched, !.rc = Line.rc]
   /\ UNCHANGED want
 
 Silent ==
@@ -91,7 +93,7 @@ TraceSpec == TraceInit /\ [][TraceNext]_tvars
 MReset ==
   /\ IsEv("reset")
   /\ mode' = Line.mode /\ cap' = Line.cap /\ obs' = ObsInit
-  /\ UNCHANGED <<pre, pc, lvl, idx, cur, proto, pend, now, guard, debits, passes, latched, fresp, frc, lerr, m, reply,
+  /\ UNCHANGED <<pre, prework, pc, lvl, idx, cur, proto, pend, now, guard, debits, passes, latched, fresp, frc, fid, lerr, m, reply,
                  replies, replyAt, engaged, entry, nsent, wire, sent, script, want>>
 MSend ==
   /\ IsEv("send")
@@ -99,7 +101,7 @@ MSend ==
   /\ UNCHANGED <<vars, want>>
 MReply ==
   /\ IsEv("reply")
-  /\ obs' = [obs EXCEPT !.replies = @ + 1]
+  /\ obs' = [obs EXCEPT !.replies = @ + 1, !.latched = Line.latched, !.rc = Line.rc]
   /\ UNCHANGED <<vars, want>>
 MFwd == IsEv("fwd") /\ UNCHANGED <<vars, want, obs>>
 MonitorSpec == TraceInit /\ [][MReset \/ MSend \/ MReply \/ MFwd]_tvars
@@ -108,6 +110,8 @@ MonitorSpec == TraceInit /\ [][MReset \/ MSend \/ MReply \/ MFwd]_tvars
 ObsAtMostOneReply == obs.replies <= 1
 ObsDebitFirst == (obs.ledger /\ mode # "off") => obs.debits >= obs.nsent
 ObsWithinBudget == mode = "enforce" => (obs.nsent <= cap /\ (obs.ledger => obs.debits <= cap))
+(* what failover handed up for a tree whose ledger had latched a rejection (any budget) is the SERVFAIL *)
+ObsOverBudgetServfail == (mode = "enforce" /\ obs.latched) => obs.rc = "servfail"
 
 HighWater == TLCSet(1, IF l > TLCGet(1) THEN l ELSE TLCGet(1))
 TraceAccepted == /\ PrintT(<<"highwater", TLCGet(1), Len(TraceLog)>>)
